@@ -40,8 +40,10 @@
 (* treated as a machinery failure by the driver, never as a verdict).      *)
 (*                                                                         *)
 (* Tol (set by the driver per assertion, units 10^-10 * scale):            *)
-(*   derivative clauses 5e-5 (worst truncation residual measured on the    *)
-(*   unchanged tree over 20 seeds: 7e-7 at h = 2^-12, scaling as h^2);      *)
+(*   derivative clauses 5e-5 (worst residual measured on the unchanged     *)
+(*   tree, 3 seeds x 29 networks x 4 data sets: 9.2e-7 at h = 2^-12, of     *)
+(*   which 2e-7 is transport rounding; truncation scales as h^2; the two    *)
+(*   genuine defects found exceed 1e-2);                                    *)
 (*   population clauses 1e-8 (measured 2e-16; transport rounding 5e-11).    *)
 (***************************************************************************)
 EXTENDS Dipoles, Fx, Json, IOUtils
